@@ -70,6 +70,7 @@ impl Family for C19Family {
         // one run in six: registrations for two RPs by users who have the same handle at both
         let two_rps = r.chance(1, 6);
         let store_errors = r.chance(1, 6);
+        let cancellations = r.chance(1, 6);
         for a in 0..n_actors {
             let mut actor = gen_actor(&mut r);
             actor.hmac = if failing_prf { HmacCfg::WithoutUv } else { HmacCfg::None };
@@ -123,6 +124,11 @@ impl Family for C19Family {
                 op.yields = gen_yields(&mut r, 12, 3);
                 // now and then the store refuses one call of this ceremony (the wrappers must hand the
                 // error on and let go of the lock)
+                // a caller that gives up: the ceremony is dropped after a few polls (whatever it was waiting for,
+                // the others must still finish)
+                if cancellations && r.chance(1, 2) {
+                    op.cancel_after = Some(r.below(6) as u32);
+                }
                 if store_errors && r.chance(1, 2) {
                     op.faults.push(Fault { seam: *r.pick(&[SeamKind::Find, SeamKind::Save, SeamKind::Update]), nth: 0, status: *r.pick(&[0x28u8, 0x06, 0x7F]), sticky: false, late: false });
                 }
@@ -182,7 +188,7 @@ impl Family for C19Family {
         if scn.batch == "enumerated" {
             stats.count("enumerated_interleavings_judged", 1);
         }
-        for p in ["overlapping_assertions_same_credential", "stale_snapshot_written_back", "register_overlaps_assert", "three_actors", "silent_assertion_on_counter_credential", "failed_assertion_after_counter_write", "same_user_handle_registered_for_two_rps", "store_error_under_shared_lock"] {
+        for p in ["overlapping_assertions_same_credential", "stale_snapshot_written_back", "register_overlaps_assert", "three_actors", "silent_assertion_on_counter_credential", "failed_assertion_after_counter_write", "same_user_handle_registered_for_two_rps", "store_error_under_shared_lock", "ceremony_dropped_by_its_caller"] {
             stats.declare_probe(p);
         }
         if rec.panic.is_some() {
@@ -191,6 +197,9 @@ impl Family for C19Family {
         }
         if c.actors.len() == 3 {
             stats.probe("three_actors");
+        }
+        if rec.ops.iter().any(|o| o.result.cancelled()) {
+            stats.probe("ceremony_dropped_by_its_caller");
         }
         if rec.events.iter().any(|e| matches!(&e.ev, Ev::FindRet { injected: true, .. } | Ev::SaveRet { injected: true, .. } | Ev::UpdateRet { injected: true, .. })) {
             stats.probe("store_error_under_shared_lock");
